@@ -31,6 +31,8 @@ SPEC = {
         'AITB.Trie.erasePF_as_extracted',
         'AITB.Trie.FMInv_emplace',
         'AITB.Trie.filtermap_filter_spec',
+        'AITB.Trie.FMFInv_emplace',
+        'AITB.Trie.filtermapF_filter_spec',
         'AITB.Trie.assign_step',
         'AITB.Trie.permute_subset',
         'AITB.Trie.reconstruct_compatible',
@@ -54,6 +56,8 @@ SPEC = {
     ],
     'harness': 'harness/c20.cpp',
     'level': 'proof',
+    'level_text': 'trie_refines_spec / trie_cursor_refines_spec / fastertrie_refines_spec(_reconstruct) / reconstruct_compatible / filtermap_filter_spec: every shape, history, query; '
+                  'model tied to src by extractor flags + differential runs; Trie::size/getAllIds/erase(id,pf) hold in the repaired form only (3 known findings, fixes/C20-*.diff)',
     'timeout': {'quick': 300, 'thorough': 1800},
     'case_timeout': 120,
     'classify_crash': classify_crash,
